@@ -43,6 +43,9 @@ DONE = {
  "C16": ("property-based testing: bound against the brute-force reference cell + history/metamorphic relation (append generators outside the safety ball in batches, rebuild, compare the cell) (proptest, sharded)",
          "Exploration: thousands of generated inputs (n to 120 quick / 300 thorough, all dimensionalities, periodic or not, anisotropic boxes); per input the vertex bound for every cell, the brute-force bound for up to 4 cells, and one history of 1..20 additions in 1..3 batches placed by construction just outside (1.0..1.5 radii) or anywhere outside the safety ball.",
          "Trusted: the harness' reference model (C01), the conditioning-derived tolerance for 'unchanged up to rounding'. Over-estimates of the radius are legal and never flagged.", "5 C16"),
+ "C18": ("property-based testing over histories with exhaustive enumeration of storage orders: all r! orders of the removed vertices for r <= 7 (sampled above), all permutations of small vertex arrays, random rotations of every plane triple, replayed clip histories (proptest, sharded; hook cell_clip = ConvexCell::clip_by_plane)",
+         "Exploration with exhaustively enumerated sub-spaces: thousands of reachable cells (box + first K <= 12 candidates of the production iterator) x a further plane; about 10^6 (quick) permuted clips; for every cell with <= 7 removed vertices all storage orders of the removed set are executed.",
+         "Trusted: canonical form = rotation-normalised cyclic plane triples; volume tolerance from the conditioning of the result. exhaustive only within the stated sub-space (orders of <= 7 removed vertices per generated cell).", "5 C18"),
 }
 NOT_YET = "check under construction (work in progress; see DESIGN.md section 5)"
 ALL = ["C%02d" % i for i in range(1, 21)]
